@@ -11,7 +11,7 @@ import re
 
 from vcheck import Machinery
 
-ENUM_VALS = [0, 1, 10, 7]           # 7 is not a declared enum value
+ENUM_VALS = [0, 1, 10, 7, 55]       # 7 and 55 are not declared enum values
 ENUM_NAMES = {0: 'Zero', 1: 'One', 10: 'Ten'}
 
 
@@ -69,7 +69,7 @@ def build(case):
         for c, col in enumerate(cols):
             x = rec[same.get(c, c)]
             if col['kind'] != 'plain':
-                v = ENUM_VALS[x % 4]
+                v = ENUM_VALS[x % 5]
                 mod = col['kind'].split('/')[1] if '/' in col['kind'] else None
                 vals.append(v)
                 texts.append(_enum_text(v, mod))
